@@ -51,18 +51,19 @@ def classify(prop, violations, known):
 
 @classifier
 def repeated_tag_only(v):
-    """C16/K2: the only differing optional fields are later occurrences of a TAG that occurs more
-    than once in the input record (the parser keeps the first occurrence of a repeated tag)."""
+    """C16/K2: the only difference between the input and the re-emitted optional fields is that
+    later occurrences of a TAG:TYPE that occurs more than once in the input record are missing
+    (the parser stores optional fields in a dict keyed by TAG:TYPE and keeps the first occurrence)."""
     w = v["witness"]
-    if v["kind"] != "tags_differ":
+    if v["kind"] not in ("tags_differ", "parse_tags"):
         return False
     fin, fout = w["in_fields"], w["out_fields"]
     seen, expect = set(), []
     for f in fin:
-        tag = f.split(":", 1)[0]
-        if tag in seen:
+        key = ":".join(f.split(":", 2)[:2])
+        if key in seen:
             continue
-        seen.add(tag)
+        seen.add(key)
         expect.append(f)
     return expect == fout and len(expect) < len(fin)
 
